@@ -1,6 +1,7 @@
 """Which rules decide which property (see DESIGN.md section 4)."""
 
 from lcmsa import rules_bellman as bel
+from lcmsa import rules_eff as eff
 from lcmsa import rules_kernel as ker
 from lcmsa import rules_per as per
 from lcmsa import rules_qa as qa
@@ -113,3 +114,13 @@ PROPERTIES["C08"]["explanation"] += " Product layout of the data space (R5.LAY1-
 PROPERTIES["C13"]["rules"] += [sim.sim_flow]
 PROPERTIES["C13"]["explanation"] += " Flow of the per-period results into the panel, targets computed from (panel, model.functions, params of the call) (R15)."
 PROPERTIES["C06"]["rules"] += [sim.sim_flow]
+
+prop("C09", [eff.effects, eff.order_taint, sim.key_rules, bel.twins],
+     "Purity: every store/mutating call in lcm acts on a fresh local (no global/nonlocal/captured/argument/alias "
+     "mutation), no memoisation, the params template is never read by generated functions, user functions are "
+     "deep-copied before wrapping (R8); no hash-ordered or name-ordered sequence reaches an order-sensitive sink, "
+     "the one hash-ordered signature is consumed by name (R7); single seeded entropy source (R6.KEY1); params is a "
+     "traced argument of the jitted solver (EFF4). Positive-control fixture analysed on every run.",
+     filter={"R6.KEY": lambda o: o.key.startswith("KEY1"), "R14.SIB": lambda o: o.key.startswith(("EFF4", "R14:jit"))})
+PROPERTIES["C10"]["rules"] += [eff.order_taint]
+PROPERTIES["C10"]["explanation"] += " Order taint (R7): axis order never depends on names (alphabetical) or hash order."
